@@ -4,6 +4,7 @@ package main
 // (cut by invariants), returns/defers, obligations.
 
 import (
+	"go/constant"
 	"bytes"
 	"fmt"
 	"go/ast"
@@ -90,6 +91,7 @@ type Exec struct {
 	modeTags   []string
 	noEnv      int
 	cbDepth    int
+	tableInit  map[*types.Var]ast.Expr
 	splitVar   string
 	splitBits  int
 }
@@ -1066,6 +1068,16 @@ func (x *Exec) forStmt(s *ast.ForStmt, st *State, label string) {
 	if s.Init != nil {
 		x.stmt(s.Init, st)
 	}
+	// a counting loop (`for i := e; i < X; i++`, i assigned nowhere else): i never falls below its initial value.
+	// This is an invariant by induction (the guard i < X keeps i+1 from wrapping), added without being asked for so
+	// that an index loop needs no contract just to be memory-safe.
+	var cntVar types.Object
+	var cntInit Term
+	if cv, ok := x.countingLoopVar(s); ok {
+		if iv, isTerm := st.vars[cv].(Term); isTerm {
+			cntVar, cntInit = cv, iv
+		}
+	}
 	spec := x.loopSpec(s)
 	env := x.loopEnv(st)
 	env.loopVar = x.findLoopVar(s)
@@ -1108,6 +1120,15 @@ func (x *Exec) forStmt(s *ast.ForStmt, st *State, label string) {
 	}
 	x.interfere(st)
 	x.loopAssumeInvs(spec, st, env)
+	if cntVar != nil {
+		if cur, ok := st.vars[cntVar].(Term); ok && cur.T.Eq(cntInit.T) {
+			if isSigned(cntVar.Type()) {
+				x.assume(st, x.leIdxAny(cntInit, cur, true))
+			} else {
+				x.assume(st, x.leIdxAny(cntInit, cur, false))
+			}
+		}
+	}
 	var variant0 Term
 	if spec != nil && spec.Decreases != nil {
 		variant0 = x.specTerm(spec.Decreases.Expr, env.at(st))
@@ -1363,6 +1384,92 @@ func (le *loopEnvT) at(st *State) *SpecEnv {
 
 func (x *Exec) loopEnv(st *State) *loopEnvT {
 	return &loopEnvT{base: x.frameEnv(st), entry: st.clone()}
+}
+
+// countingLoopVar recognises `for i := e; i < X (or i <= X); i++ (or i += c, c > 0 constant)` where the body does not
+// assign i or take its address.
+func (x *Exec) countingLoopVar(s *ast.ForStmt) (types.Object, bool) {
+	if s.Init == nil || s.Cond == nil || s.Post == nil {
+		return nil, false
+	}
+	as, ok := s.Init.(*ast.AssignStmt)
+	if !ok || len(as.Lhs) != 1 || len(as.Rhs) != 1 {
+		return nil, false
+	}
+	id, ok := as.Lhs[0].(*ast.Ident)
+	if !ok {
+		return nil, false
+	}
+	obj := x.info.ObjectOf(id)
+	if obj == nil || !isInteger(obj.Type()) {
+		return nil, false
+	}
+	be, ok := unparen(s.Cond).(*ast.BinaryExpr)
+	if !ok || (be.Op != token.LSS && be.Op != token.LEQ) {
+		return nil, false
+	}
+	if cid, ok := unparen(be.X).(*ast.Ident); !ok || x.info.ObjectOf(cid) != obj {
+		return nil, false
+	}
+	switch p := s.Post.(type) {
+	case *ast.IncDecStmt:
+		if pid, ok := unparen(p.X).(*ast.Ident); !ok || x.info.ObjectOf(pid) != obj || p.Tok != token.INC {
+			return nil, false
+		}
+	case *ast.AssignStmt:
+		if p.Tok != token.ADD_ASSIGN || len(p.Lhs) != 1 || len(p.Rhs) != 1 {
+			return nil, false
+		}
+		if pid, ok := unparen(p.Lhs[0]).(*ast.Ident); !ok || x.info.ObjectOf(pid) != obj {
+			return nil, false
+		}
+		tv, ok := x.info.Types[p.Rhs[0]]
+		if !ok || tv.Value == nil || constant.Sign(tv.Value) <= 0 {
+			return nil, false
+		}
+	default:
+		return nil, false
+	}
+	touched := false
+	ast.Inspect(s.Body, func(n ast.Node) bool {
+		switch st := n.(type) {
+		case *ast.AssignStmt:
+			for _, l := range st.Lhs {
+				if lid, ok := unparen(l).(*ast.Ident); ok && x.info.ObjectOf(lid) == obj {
+					touched = true
+				}
+			}
+		case *ast.IncDecStmt:
+			if lid, ok := unparen(st.X).(*ast.Ident); ok && x.info.ObjectOf(lid) == obj {
+				touched = true
+			}
+		case *ast.UnaryExpr:
+			if lid, ok := unparen(st.X).(*ast.Ident); ok && st.Op == token.AND && x.info.ObjectOf(lid) == obj {
+				touched = true
+			}
+		case *ast.RangeStmt:
+			for _, l := range []ast.Expr{st.Key, st.Value} {
+				if l != nil {
+					if lid, ok := unparen(l).(*ast.Ident); ok && x.info.ObjectOf(lid) == obj {
+						touched = true
+					}
+				}
+			}
+		}
+		return true
+	})
+	return obj, !touched
+}
+
+// leIdxAny: a <= b for two terms of the same integer sort (bit-vector signed/unsigned, or mathematical)
+func (x *Exec) leIdxAny(a, b Term, signed bool) Term {
+	if a.T.K == SBV {
+		if signed {
+			return mk(sortBool, "bvsle", a, b)
+		}
+		return mk(sortBool, "bvule", a, b)
+	}
+	return mk(sortBool, "<=", a, b)
 }
 
 // findLoopVar: the unique local mentioned in the loop condition and assigned in the loop.
